@@ -231,20 +231,42 @@ def load_known():
         return json.load(f).get("findings", [])
 
 
-def match_known(v, known):
+def _sig_match(sig, v, ctx):
+    if sig.get("pred") and sig["pred"] != v["pred"]:
+        return False
+    if sig.get("detail_regex") and not re.search(sig["detail_regex"], v["detail"]):
+        return False
+    if sig.get("family_regex") and not re.search(sig["family_regex"], os.path.basename(v.get("file", ""))):
+        return False
+    if sig.get("after_pred"):
+        # the violation lies in a trace in which the named predicate was false at an earlier (or the same) line:
+        # the specific history that identifies the finding
+        first = (ctx or {}).get((v.get("file"), sig["after_pred"]))
+        if first is None or v.get("line", 0) < first:
+            return False
+    return True
+
+
+def known_context(viols):
+    """(file, predicate) -> first line at which that predicate is false in that trace."""
+    ctx = {}
+    for v in viols:
+        k = (v.get("file"), v["pred"])
+        if k not in ctx or v.get("line", 0) < ctx[k]:
+            ctx[k] = v.get("line", 0)
+    return ctx
+
+
+def match_known(v, known, ctx=None):
     for k in known:
         if k.get("status") != "open":
             continue
         if k["property"] != v["prop"]:
             continue
         sig = k.get("signature", {})
-        if sig.get("pred") and sig["pred"] != v["pred"]:
-            continue
-        if sig.get("detail_regex") and not re.search(sig["detail_regex"], v["detail"]):
-            continue
-        if sig.get("family_regex") and not re.search(sig["family_regex"], os.path.basename(v.get("file", ""))):
-            continue
-        return k
+        alts = sig.get("any_of") or [sig]
+        if any(_sig_match(s, v, ctx) for s in alts):
+            return k
     return None
 
 
